@@ -1,6 +1,8 @@
 package syntax
 
 import (
+	"sort"
+
 	zerr "github.com/DemoHn/Zn/pkg/error"
 )
 
@@ -120,14 +122,16 @@ func (l *Lexer) SetCursor(cursor int) {
 
 // find which line the given `cursor` is located
 func (l *Lexer) FindLineIdx(cursor int, startLoopIdx int) int {
-	i := startLoopIdx
-	for i+1 < len(l.Lines) {
-		if cursor < l.Lines[i+1].StartIdx {
-			return i
-		}
-		i += 1
+	// lines are recorded in source order: the line of `cursor` is the last one (from
+	// startLoopIdx on) that starts at or before it. This runs for every node of the tree,
+	// so it must not walk over all lines each time
+	rest := len(l.Lines) - startLoopIdx - 1
+	if rest <= 0 {
+		return startLoopIdx
 	}
-	return i
+	return startLoopIdx + sort.Search(rest, func(k int) bool {
+		return l.Lines[startLoopIdx+1+k].StartIdx > cursor
+	})
 }
 
 func (l *Lexer) GetLineInfo(idx int) *LineInfo {
